@@ -421,7 +421,7 @@ var containerViewMethods = func() map[string]bool {
 // not accessors of one field: transitions, conversions, whole-value operations
 var nonAccessors = map[string]bool{
 	"Raw": true, "CopyState": true, "ForkSettings": true, "ProcessEpoch": true, "ProcessBlock": true,
-	"AddValidator": true, "Flatten": true, "Set": true, "IsValid": true,
+	"Flatten": true, "Set": true, "IsValid": true,
 	// derived predicates of the bellatrix+ states (read several fields)
 	"IsExecutionEnabled": true, "IsTransitionBlock": true, "IsTransitionCompleted": true,
 	// own (non-promoted) redefinitions on sub-views
@@ -430,7 +430,7 @@ var nonAccessors = map[string]bool{
 
 var specials = map[string]bool{
 	"IncrementDepositIndex": true, "IncrementNextWithdrawalIndex": true, "MakeSlashed": true,
-	"RotateSyncCommittee": true, "SeedRandao": true,
+	"RotateSyncCommittee": true, "SeedRandao": true, "AddValidator": true,
 }
 
 func ownMethods(t reflect.Type) []reflect.Method {
@@ -595,6 +595,15 @@ func gen(o hreg.Opts, w *bufio.Writer) error {
 				case "RotateSyncCommittee":
 					b, _ := argBytes(rng, m.Type.In(1), nvals)
 					emit("call", " %s %s", m.Name, hx(b))
+				case "AddValidator":
+					var pub [48]byte
+					var cred [32]byte
+					var bal [8]byte
+					rng.Read(pub[:])
+					rng.Read(cred[:])
+					cred[0] = byte(rng.Intn(2))
+					binary.LittleEndian.PutUint64(bal[:], uint64(rng.Int63n(40000000000)))
+					emit("call", " %s %s %s %s", m.Name, hx(pub[:]), hx(cred[:]), hx(bal[:]))
 				case "SeedRandao":
 					var seed [32]byte
 					rng.Read(seed[:])
@@ -826,6 +835,21 @@ func (s *session) step(f []string) string {
 			if len(f) != 2 {
 				return "bad-op"
 			}
+		case "AddValidator":
+			if len(f) != 5 {
+				return "bad-op"
+			}
+			pb, ok1 := unhx(f[2])
+			cb, ok2 := unhx(f[3])
+			bb, ok3 := unhx(f[4])
+			if !ok1 || !ok2 || !ok3 || len(pb) != 48 || len(cb) != 32 || len(bb) != 8 {
+				return "bad-op"
+			}
+			var pub common.BLSPubkey
+			var cred common.Root
+			copy(pub[:], pb)
+			copy(cred[:], cb)
+			args = []reflect.Value{reflect.ValueOf(spec), reflect.ValueOf(pub), reflect.ValueOf(cred), reflect.ValueOf(common.Gwei(binary.LittleEndian.Uint64(bb)))}
 		case "SeedRandao":
 			if len(f) != 3 {
 				return "bad-op"
